@@ -52,6 +52,36 @@ fn paths() -> Result<&'static Paths, crate::engine::Failure> {
     }
 }
 
+/// `new -n L` under the seeded shim with a pseudo-terminal as standard output: exactly what it prints into a pipe
+/// (one line, the phrase) - a user generating a wallet sees it on a terminal.
+#[derive(Clone, Debug, Serialize, Deserialize)]
+pub struct TtyNewCase {
+    pub length: u64,
+    pub ge_seed: u64,
+}
+
+fn judge_tty_new(c: &TtyNewCase, cls: &mut Classifier) -> Verdict {
+    let p = paths()?;
+    let env = vec![("LD_PRELOAD".to_string(), p.shim.display().to_string()), ("GE_SEED".to_string(), c.ge_seed.to_string())];
+    let l = c.length.to_string();
+    let args = ["new", "-n", l.as_str()];
+    let os: Vec<std::ffi::OsString> = args.iter().map(std::ffi::OsString::from).collect();
+    let pipe = cli::run_raw(&p.cli, &os, &env, &[], NEW_TIMEOUT);
+    if pipe.timed_out {
+        return Ok(());
+    }
+    let Some(tty) = cli::run_tty_env(&p.cli, &args, &env, &[], false, true) else {
+        cls.label("tty-not-available-or-timeout");
+        return Ok(());
+    };
+    if (tty.code, &tty.stdout) != (pipe.code, &pipe.stdout) {
+        return fail(format!("as into a pipe: {}", pipe.describe()), tty.describe(), format!("`hdwallet new -n {}` (GE_SEED={}) with standard output a terminal", c.length, c.ge_seed));
+    }
+    cls.label("terminal");
+    cls.nontrivial(&("tty", c.length, c.ge_seed));
+    Ok(())
+}
+
 const NEW_TIMEOUT: Duration = Duration::from_secs(20);
 /// A one-digit search needs ~16 candidates of ~7 ms; the reference gives up after SEARCH_LIMIT.
 const VANITY_TIMEOUT: Duration = Duration::from_secs(30);
@@ -1273,6 +1303,11 @@ pub fn run(ctx: &mut Ctx) {
     }
     let news = new_cases(ctx, t.pick(4, 100), t.pick(1, 20));
     ctx.run_cases("new", &news, judge_new);
+    let tty_news: Vec<TtyNewCase> = [12u64, 15, 18, 21, 24, 13, 0].iter().enumerate().map(|(i, l)| TtyNewCase { length: *l, ge_seed: ctx.sub_seed("tty-new", i as u64) }).collect();
+    ctx.run_cases("terminal", &tty_news, judge_tty_new);
+    if ctx.cls.count("tty-not-available-or-timeout") > 0 {
+        ctx.inconclusive(format!("{} terminal runs could not be made", ctx.cls.count("tty-not-available-or-timeout")));
+    }
     ctx.exhaustive_parts.push("CLI: `new -n L` for every L in 0..=40, each with a working and a failing source".into());
 
     let vf = vanity_fail_cases(ctx, t.pick(8, 200));
@@ -1350,6 +1385,7 @@ fn replay_inner(sub: &str, case: &Value) -> Option<Verdict> {
     match sub {
         "lengths" | "script" => go!(InprocCase, judge_inproc),
         "new" => go!(NewCase, judge_new),
+        "terminal" => go!(TtyNewCase, judge_tty_new),
         "vanity-fail" | "vanity" => go!(VanityCase, judge_vanity),
         "vanity-transient" => go!(TransientCase, judge_transient),
         "real" => go!(RealCase, judge_real),
